@@ -17,7 +17,7 @@ from .. import engine, sched, refcsv
 
 PROP = 'C16'
 LEVEL = 'exploration'
-RULE = ('Histories: a pool of 44 scenarios (every query kind of C01-C05, LIKE with many patterns, aggregates, UNNEST, DISTINCT [COUNT], joins, UPDATE, parse errors, runtime '
+RULE = ('Histories: a pool of 47 scenarios (sharing their table objects) (every query kind of C01-C05, LIKE with many patterns, aggregates, UNNEST, DISTINCT [COUNT], joins, UPDATE, parse errors, runtime '
         'errors at record k, IO errors, query_csv, pandas); every ordered pair (quick) and every ordered triple (thorough) run in one interpreter, plus Hypothesis '
         'rule-based state machines over sequences of <= 6 (quick) / <= 12 (thorough) scenarios; invariant after every step: the result (output, header, warnings, error) '
         'equals the result of the same scenario run alone in a FRESH interpreter (one sub-process per scenario). Interleavings: two queries of different kinds run in two '
@@ -29,6 +29,7 @@ ASSUMPTIONS = ['only the cooperative switch points the property names are explor
 
 T1 = [['a', '1', 'x,y'], ['b', '2', 'z'], ['a', '3', 'x'], ['c', '10', ''], ['b', '5', 'y,y']]
 T2 = [['a', 'A1'], ['b', 'B1'], ['a', 'A2'], ['d', 'D1']]
+T3 = [['a', 'A1', 'extra'], ['b'], ['a', 'A2'], ['c', 'C1']]
 LIKE_T = [[t, p] for t in ['abc', 'a.c', 'a%', '', 'xyz', 'a_c'] for p in ['a%', '_b_', 'a.c', '%', 'a\\%', '%c', 'x_z', '']]
 NAMES = ['k', 'n', 'tags']
 
@@ -48,6 +49,7 @@ POOL = [
     S('agg', 'select a1, count(*), sum(int(a2)), max(a2) group by a1'), S('agg-nogroup', 'select COUNT(*), AVG(a2), MEDIAN(a2), VARIANCE(a2)'), S('agg-array', 'select a1, ARRAY_AGG(a2), ANY_VALUE(a3) group by a1'),
     S('agg-min-lower', 'select min(a2), sum(a2)'), S('builtin-max', 'select max(int(a2), 3), sum([1, NR])'), S('like', "select a1, like(a1, a2), like(a1, '%c')", A=LIKE_T), S('like-where', "select a1 where like(a1, 'a_c') or like(a2, '\\%')", A=LIKE_T),
     S('join', 'select a1, b2 join b on a1 == b1', B=T2), S('left-join', 'select a1, b2, bNR left join b on a1 == b1', B=T2), S('join-nr', 'select a1, b2 join b on NR == bNR', B=T2),
+    S('left-join-ragged', 'select a1, b2, b3 left join b on a1 == b1', B=T3), S('ragged-input', 'select NF, * order by NF', A=T3), S('join-ragged-inner', 'select a1, b.* join b on a1 == b1', B=T3),
     S('join-agg', 'select a1, count(*), ARRAY_AGG(b2) join b on a1 == b1 group by a1', B=T2), S('strict-left-fails', 'select a1, b2 strict left join b on a1 == b1', B=T2),
     S('update', "update a3 = a1 + a2, a1 = 'U' where a1 != 'b'"), S('update-nu', 'update set a2 = NU'), S('update-join', "update a3 = b2 join b on a2 == b1", B=[['1', 'one'], ['3', 'three']]),
     S('header', 'select a.k, a["tags"] as t, NR', a_names=NAMES), S('header-star', 'select *, a.n as num order by a.k', a_names=NAMES), S('header-join', 'select a.k, b.w join b on a.k == b.k', B=T2, a_names=NAMES, b_names=['k', 'w']),
@@ -63,7 +65,8 @@ def run_scenario(sc, scratch):
     rbql = engine.rbql
     kind = sc['kind']
     if kind == 'table':
-        r = engine.run_table(sc['query'], copy.deepcopy(sc['A']), copy.deepcopy(sc['B']), sc['a_names'], sc['b_names'])
+        # the very same table objects are handed to every query of a history: a query that modified its sources would change later results
+        r = engine.run_table(sc['query'], sc['A'], sc['B'], sc['a_names'], sc['b_names'])
         return jsonable({'out': r['out'], 'header': r['header'], 'warnings': r['warnings'], 'error': r['error']})
     if kind in ('csv', 'csv-bad'):
         src, dst = os.path.join(scratch, 'c16_%d_in.csv' % os.getpid()), os.path.join(scratch, 'c16_%d_out.csv' % os.getpid())
